@@ -124,6 +124,27 @@ class Ctx:
 
     def on_restored(self, ns):
         d = self.digest(ns)
+        # reach probes: in which state was the run resumed?
+        if self.sampler_kind == "ns":
+            fp = ns._flow_proposal
+            self.probe("resume_during_uninformed_sampling" if ns.uninformed_sampling else "resume_during_flow_sampling")
+            if getattr(fp, "resume_populated", False) and getattr(fp, "indices", []):
+                self.probe("resume_with_populated_pool")
+            else:
+                self.probe("resume_with_empty_pool")
+            if not ns.completed_training:
+                self.probe("resume_with_training_incomplete")
+            if getattr(ns, "_awaiting_replacement", False) is True:
+                self.probe("resume_awaiting_replacement")
+            if getattr(fp, "training_count", 0):
+                self.probe("resume_after_training")
+            else:
+                self.probe("resume_before_training")
+            if ns.live_points is None and not ns.finalised:
+                self.probe("resume_before_live_points")
+        else:
+            self.probe("resume_ins_with_saved_log_q" if ns.save_log_q else "resume_ins_rederived_log_q")
+            self.probe(f"resume_ins_levels_{min(int(ns.proposal.n_proposals) - 1, 5)}")
         self.nb.note("restored", digest=d, iteration=int(ns.iteration),
                      evals=int(ns.model.likelihood_evaluations),
                      sampling_time=ns.sampling_time.total_seconds())
